@@ -10,7 +10,7 @@ import (
 	"verifharness/internal/val"
 )
 
-var c17Floor = []string{"after-rejected", "comment", "opts.none", "opts.W", "opts.P", "opts.I", "opts.WP", "opts.WI", "opts.PI", "opts.WPI", "spell.dq", "spell.brackets", "spell.neutral-under-option",
+var c17Floor = []string{"after-rejected", "after-other-reading", "comment", "opts.none", "opts.W", "opts.P", "opts.I", "opts.WP", "opts.WI", "opts.PI", "opts.WPI", "spell.dq", "spell.brackets", "spell.neutral-under-option",
 	"lit.dquote", "lit.squote", "lit.backtick", "lit.backslash", "lit.bracket", "ident.dquote-in-backtick", "ident.bracket", "ident.space", "array.nested", "array.empty", "array.with-bracket-literal", "path.bracket", "where", "shape.derived", "shape.cte", "shape.union", "shape.with-shadow", "shape.with-body"}
 
 func init() {
@@ -241,6 +241,7 @@ func c17Run(c *fw.Case) {
 		// a column to join on
 		items = append(items, c17Item{kind: "num", s: "1", alias: "jk"})
 	}
+	bareFrom := c.Chance(0.4)
 	render := func(dq, brackets bool) string {
 		q := gen.QBacktick
 		if dq {
@@ -265,7 +266,12 @@ func c17Run(c *fw.Case) {
 			}
 			parts[i] = e + " AS " + gen.Ident(it.alias, aq)
 		}
-		sql := "SELECT " + strings.Join(parts, ", ") + " FROM " + gen.Ident("root.t1", q)
+		from := gen.Ident("root.t1", q)
+		if bareFrom {
+			// the table named without quotes: the text can then be read without the option too
+			from = "root.t1"
+		}
+		sql := "SELECT " + strings.Join(parts, ", ") + " FROM " + from
 		if where != nil {
 			sql += " WHERE " + gen.RenderPred(where, gen.RenderOpts{Quote: q, StrStyle: style})
 		}
@@ -325,6 +331,13 @@ func c17Run(c *fw.Case) {
 		doc = val.CopyMap(d)
 	} else {
 		doc = map[string]any{"root": val.Copy(d)}
+	}
+	if (force == "after-other-reading" || c.Chance(0.2)) && (o.PG || o.Idiomatic) {
+		// the very same text evaluated just before without the options (it then
+		// means something else, or nothing): what a text means is decided by
+		// the options of each call
+		_ = Run(val.CopyMap(doc), sql, OptSet{Wrapped: o.Wrapped}.Options()...)
+		feats = append(feats, "after-other-reading")
 	}
 	r1 := Run(doc, sql, o.Options()...)
 	c.Evals(2)
